@@ -20,11 +20,11 @@ EPS = F(1, 10 ** 6)
 
 BOUNDS = {
     'quick': 'one site and one input position, each with one symbolic fractional coordinate (any real in [0,1)) along the same axis, the other '
-             'two coordinates from a concrete pool incl. values next to 0 and 1; groups P1, P-1 on the triclinic pool cell; '
+             'two coordinates from a concrete pool incl. values next to 0 and 1; groups P1, P-1 on the triclinic pool cell, P3 on an exactly hexagonal rational cell; '
              'radius 1.0 A; supercell (2,1,1) folding on P-1',
-    'thorough': 'all three axes in turn, two radii, additionally P2_1/c (mono567b110), Pnma (ortho457), supercells (2,1,1), (1,2,2)',
+    'thorough': 'all three axes in turn, two radii, additionally P2_1/c (mono567b110), Pnma (ortho457), P-3 (hexagonal axes), supercells (2,1,1), (1,2,2)',
 }
-OUTSIDE = ['groups with 16 or more operations (P4/mmm did not finish in 25 min per job), hexagonal / rhombohedral / cubic groups (Fm-3m: 192) and lattices whose rounded matrix is not exactly invariant under the group',
+OUTSIDE = ['groups with 16 or more operations (P4/mmm did not finish in 25 min per job), hexagonal groups beyond P3 / P-3, rhombohedral / cubic groups (Fm-3m: 192) and lattices whose rounded matrix is not exactly invariant under the group',
            'more than one input position per query (rows are independent)', 'radii at or above half the smallest perpendicular width']
 ASSUMPTIONS = [
     'Lattice.get_all_distances contract (27-image metric-tensor minimum after reduction)',
@@ -36,6 +36,8 @@ STUBS = ['pymatgen Lattice -> LatticeProxy (distances, Cartesian conversion on s
 GROUPS = {
     'P1': ('P1', 'tric'), 'P-1': ('P-1', 'tric'), 'P2_1/c': ('P2_1/c', 'mono567b110'), 'Pnma': ('Pnma', 'ortho457'),
     'P4/mmm': ('P4/mmm', 'tetra447'),
+    # hexagonal axes: fractional rotation matrices that are not orthogonal (R^-1 != R^T)
+    'P3': ('P3', 'hex111'), 'P-3': ('P-3', 'hex111'),
 }
 FIXED = [[0.97, 0.02], [0.5, 0.03], [0.25, 0.6]]
 
@@ -43,6 +45,10 @@ FIXED = [[0.97, 0.02], [0.5, 0.03], [0.25, 0.6]]
 def _matrix(lat):
     if lat == 'tetra447':
         return np.diag([4.0, 4.0, 7.0])
+    if lat == 'hex111':
+        # an exactly hexagonal cell with a rational matrix: a, b in the (111) plane of a cube, c along [111]
+        # (|a| = |b| = 3.5*sqrt(2), angle 120 degrees, |c| = 4.5*sqrt(3)), so the metric is exactly invariant under 3-fold rotations
+        return np.array([[3.5, -3.5, 0.0], [0.0, 3.5, -3.5], [4.5, 4.5, 4.5]])
     return pool.lattice_matrices()[lat]
 
 
@@ -197,11 +203,13 @@ REPLAYS = dict(shape_job=shape_job_replay)
 def jobs(tier, seed):
     js = []
     if tier == 'quick':
-        cfg = [('P1', 0, 0, 0, 1.0, None), ('P-1', 0, 0, 0, 1.0, None), ('P-1', 1, 0, 1, 1.0, None), ('P-1', 0, 0, 0, 1.0, [2, 1, 1])]
+        cfg = [('P1', 0, 0, 0, 1.0, None), ('P-1', 0, 0, 0, 1.0, None), ('P-1', 1, 0, 1, 1.0, None), ('P-1', 0, 0, 0, 1.0, [2, 1, 1]),
+               ('P3', 0, 0, 0, 1.0, None)]
     else:
         cfg = [(g, ax, i, j, r, None) for g in ('P1', 'P-1', 'P2_1/c') for ax in (0, 1, 2) for (i, j) in ((0, 0), (1, 2)) for r in (1.0, 1.6)] + \
               [('Pnma', ax, 0, 0, 1.0, None) for ax in (0, 2)] + \
-              [('P-1', 0, 0, 0, 1.0, [2, 1, 1]), ('P-1', 1, 0, 1, 1.0, [1, 2, 2])]
+              [('P-1', 0, 0, 0, 1.0, [2, 1, 1]), ('P-1', 1, 0, 1, 1.0, [1, 2, 2])] + \
+              [('P3', ax, i, j, 1.0, None) for ax in (0, 1, 2) for (i, j) in ((0, 0), (1, 2))] + [('P-3', 0, 0, 0, 1.0, None), ('P-3', 1, 1, 2, 1.0, None)]
     for g, ax, i, j, r, sc in cfg:
         tag = g.replace('/', '').replace('_', '')
         js.append(dict(name=f'shape_{tag}_axis{ax}_s{i}p{j}_r{r}' + (f'_sc{"".join(map(str, sc))}' if sc else ''), fn='shape_job',
